@@ -9,6 +9,12 @@ PROPS = {
             {"name": "TestC01", "quick": 480, "thorough": 6000},
         ],
     },
+    "C02": {
+        "level": "exploration",
+        "tests": [
+            {"name": "TestC02", "quick": 400, "thorough": 5000},
+        ],
+    },
     "C03": {
         "level": "fault_enumeration",
         "tests": [
